@@ -60,8 +60,8 @@ def Emb.current : Emb :=
 def Emb.sound (e : Emb) : Bool :=
   e.joinRegisters && e.leaveOthersUnreg && e.leaveLastUnreg && (e.closeUnreg || e.absentUnreg)
 
-/-- The tree as found: everything but the deletion of a room by the backend
-(open finding `C14-room-delete-keeps-listeners`). -/
+/-- The tree before the repair of `Room.Close` (finding `C14-room-delete-keeps-listeners`): everything but
+the deletion of a room by the backend.  Only used by the witness `C14_room_delete_keeps_listener`. -/
 def Emb.asFound : Emb :=
   { joinRegisters := true, leaveOthersUnreg := true, leaveLastUnreg := true, absentUnreg := false, closeUnreg := false }
 
